@@ -706,10 +706,11 @@ func (sh *SyncHandler) addBlobToCopy(sb blob.SizedRef) bool {
 }
 
 func (sh *SyncHandler) enqueue(sb blob.SizedRef) error {
-	if !sh.addBlobToCopy(sb) {
-		// Dup
-		return nil
-	}
+	// The row is written even when the blob is already in the in-memory
+	// list: it may have been put there by a concurrent enqueue of the same
+	// blob that has not written its row yet, and this receive must not be
+	// acknowledged before the pending copy is durable.
+	sh.addBlobToCopy(sb)
 	// TODO: include current time in encoded value, to attempt to
 	// do in-order delivery to remote side later? Possible
 	// friendly optimization later. Might help peer's indexer have
